@@ -150,6 +150,26 @@ func corpus() []*timing.Scenario {
 		s.Steps = steps([]int{20, 60}, []int{8192, 8193})
 		s.Framing = "cl"
 		add(s)
+		// the Anthropic translation route (handler_translation.go: engine -> pipe -> stream translator -> client)
+		s = base(e, auto, sse)
+		s.Route = "anthropic"
+		s.Steps = steps([]int{20, 60, 20}, []int{5, 40, 300})
+		add(s)
+		s = base(e, auto, sse)
+		s.Route = "anthropic"
+		s.Steps = steps([]int{20, 20}, []int{5, 40})
+		s.Ending = "stall"
+		add(s)
+		s = base(e, auto, sse)
+		s.Route = "anthropic"
+		s.Steps = steps([]int{20, 60, 60, 60}, []int{5, 40, 40, 40})
+		s.AbortMs = 130
+		add(s)
+		s = base(e, auto, sse)
+		s.Route = "anthropic"
+		s.Steps = steps([]int{20, 60}, []int{5, 40})
+		s.Ending = "reset"
+		add(s)
 	}
 	return out
 }
@@ -209,6 +229,15 @@ func random(r *vlib.Rng) *timing.Scenario {
 	}
 	if r.Chance(1, 4) {
 		s.Framing = "cl"
+	}
+	if r.Chance(1, 8) && s.AbortBytes < 0 {
+		// same schedule through the Anthropic translation route
+		s.Route, s.CT, s.Framing, s.Profile, s.Forced = "anthropic", "text/event-stream", "chunked", "auto", false
+		for i := range s.Steps {
+			if s.Steps[i].Size > 4096 {
+				s.Steps[i].Size = 4096
+			}
+		}
 	}
 	return s
 }
@@ -289,7 +318,7 @@ func main() {
 		scs = append(scs, rep.FailingCase.Scenario)
 	} else {
 		scs = corpus()
-		n, batch := 64, 32
+		n, batch := 72, 36
 		if tier == "thorough" {
 			n = 600
 		}
@@ -298,7 +327,7 @@ func main() {
 			scs = append(scs, random(r))
 		}
 	}
-	batch := 32
+	batch := 36
 	if tier == "thorough" {
 		batch = 40
 	}
@@ -367,6 +396,7 @@ func main() {
 			mode = "forced"
 		}
 		c.Count("engine." + sc.Engine)
+		c.Count("route." + sc.Route)
 		c.Count("profile." + sc.Profile + "." + mode)
 		c.Count("ct." + sc.CT)
 		c.Count("ending." + sc.Ending)
